@@ -85,6 +85,49 @@ PROPS = {
             "text keys of one PrmText are unique (BTreeMap); the first reference with a name wins (get_prm)",
         ],
     },
+    "C17": {
+        "coq": "Properties/C17.v",
+        "domains": ["diag"],
+        "nontrivial": ["fill:stored", "fill:too-large", "fill:no-buffer", "iter:1-block", "iter:2+blocks", "iter:0-blocks",
+                       "dp:accepted", "dp:rejected", "scan:found"],
+        "rule": "cases = generated ED lines (hook path: ExtendedDiagnostics::from_buffer + fill + raw_diag_buffer + iter_diag_blocks + Debug; "
+                "all 1-byte strings x capacities {none,0,1,|ext|-1,|ext|,64,244}, all 65536 2-byte strings, every header byte with exact / "
+                "short / long / chained structured tails, all values of channel bytes 1 and 2, fill sequences with previous content, random and "
+                "structured strings of every length 0..244), DP lines (public path: DpMaster + Peripheral driven through FdlApplication::"
+                "transmit_telegram/receive_reply with hand-made reply telegrams, PDUs of every length 0..244, reply sequences with wrong SAPs, "
+                "SC and short PDUs in between, last_diagnostics() + Debug with the formatting logger installed) and SCAN lines (DpScanner::receive_reply), "
+                "plus corpus/diag, deduplicated; non-trivial = fills (stored / too large / no buffer), iterations of available buffers by number of blocks, "
+                "accepted and rejected DP replies, scanner finds",
+        "trusted_base": [
+            "hand model coq/Model/Diag.v of src/dp/diagnostics.rs (ExtendedDiagnostics, ExtDiagBlockIter::next, ChannelError/ChannelDataType) and of "
+            "handle_diagnostics_response / parse_diag_response (peripheral.rs, scan.rs), tied by differential execution on this run's cases",
+            "gen/tr_diag.py: DiagnosticFlags masks, header byte positions, channel error / data type tables, block type codes, length masks and the "
+            "presence of the length-0 guard are regenerated from the source; the hand-written specification tables in Model/DiagOracle.v are proved equal to them",
+            "Rust u8/u16/usize operators as modelled: & | >> = Z.land/Z.lor/Z.shiftr on 0..255, from_le/be_bytes = a + 256 b, flags.remove = Z.ldiff; "
+            "usize cursor arithmetic cannot overflow for buffers that fit in memory (not modelled)",
+            "BitSlice<u8, Lsb0>::from_slice / iter_ones of the bitvec crate are taken as: bit k of byte j is index 8j+k (checked differentially)",
+        ],
+        "technique": "Coq proof (header faithfulness, buffer fill, iterator totality and tiling for all byte strings, channel byte sweeps) over a Gallina "
+                     "model of the fixed code + differential correspondence model vs crate through the hook and through the public DP path",
+        "level_text": "Machine-checked theorems (Coq 8.16.1, closed under the global context) over ALL byte strings about the Gallina model of the diagnostics "
+                      "code: the reported ident, master address and every flag bit equal the wire bytes except the deliberately cleared marker bit 10; PDUs "
+                      "shorter than 6 bytes (and only those) are rejected; extended diagnostics are stored iff EXT_DIAG is set, a buffer exists and the string fits, "
+                      "otherwise the previous content is unchanged; the block iterator never panics, needs at most |buf|+1 steps, and its output is THE tiling "
+                      "of the buffer into consecutive well-formed blocks of their announced length, stopping exactly at the first malformed (reserved type, "
+                      "length 0) or truncated block; identifier / device data and all 256 values of each channel byte decode as the specification tables "
+                      "say; Debug formatting and any history of replies through handle_diagnostics_response never panic. The model is of the code WITH the "
+                      "F5 fix (length-0 block headers panicked the unfixed iterator; proved for the unguarded model, reproduced through the public DP path, "
+                      "fixed in commit c46c975, guard detected by the translator). Model tied to the crate on every run by ~87k cases (all 1- and 2-byte "
+                      "strings, all header bytes, PDU lengths 0..244, all capacity classes) through the verif-hooks wrappers and through DpMaster/DpScanner; "
+                      "the theorems' boolean oracles also run on the crate's outputs.",
+        "level_note": "Trusted: Coq kernel, gen/tr_diag.py, extraction + OCaml driver, Rust harness; the hand-written model is validated, not verified, "
+                      "against the Rust source (differential execution). Debug output is compared only as panic / no panic. Observation outside the property: "
+                      "iter_diag_blocks().next() on a peripheral WITHOUT diag buffer panics (raw_diag_buffer().unwrap()); modelled and stated explicitly.",
+        "design_ref": "DESIGN.md section 4, C17 (interpretation 4.0; finding F5 in section 7)",
+        "assumptions": ["bytes 0..255; the 'permanent' marker bit (bit 10 of the status word) is cleared on purpose and excluded from 'equal to the wire' (DESIGN 4.0)",
+                        "iteration is over the visible bytes of a container that has a buffer (without buffer there is no byte string; next() panics there, stated as C17_container_without_buffer_panics)",
+                        "debug logging enabled (worst case: the ext diag buffer is formatted on every stored reply)"],
+    },
 }
 
 NOT_CLAIMED = {}
